@@ -1321,15 +1321,11 @@ class Bits:
         # Search chunks starting near the end and then moving back.
         c = 0
         increment = max(8192, len(bs) * 80)
-        buffersize = min(increment + len(bs), msb0_end - msb0_start)
-        pos = max(msb0_start, msb0_end - buffersize)
-        while True:
-            found = list(self._findall_msb0(bs, start=pos, end=pos + buffersize, count=None, bytealigned=False))
-            if not found:
-                if pos == msb0_start:
-                    return
-                pos = max(msb0_start, pos - increment)
-                continue
+        hi = msb0_end - len(bs)  # The highest msb0 position at which a match could start.
+        while hi >= msb0_start:
+            # Each pass reports the matches that start in [lo, hi], so none is missed or seen twice.
+            lo = max(msb0_start, hi - increment + 1)
+            found = list(self._findall_msb0(bs, start=lo, end=hi + len(bs), count=None, bytealigned=False))
             while found:
                 if count is not None and c >= count:
                     return
@@ -1337,10 +1333,7 @@ class Bits:
                 if not bytealigned or lsb0_pos % 8 == 0:
                     c += 1
                     yield lsb0_pos
-
-            pos = max(msb0_start, pos - increment)
-            if pos == msb0_start:
-                return
+            hi = lo - 1
 
     def rfind(self, bs: BitsType, /, start: Optional[int] = None, end: Optional[int] = None,
               bytealigned: Optional[bool] = None) -> Union[Tuple[int], Tuple[()]]:
